@@ -74,6 +74,7 @@ type c08Cfg struct {
 	Stateless bool `json:"stateless"`
 	JSON      bool `json:"json"`
 	Store     bool `json:"store"`
+	MaxBytes  int  `json:"maxbytes"` // > 0: bound of the MemoryEventStore (events get purged)
 }
 
 type c08Sess struct {
@@ -395,6 +396,9 @@ func (s *c08Store) After(ctx context.Context, sid, stream string, index int) ite
 			} else {
 				n++
 			}
+			if n == 1 {
+				s.run.gate("M:" + xn) // held in the middle of the store's iteration (still inside the stream lock)
+			}
 			if !yield(d, err) {
 				return
 			}
@@ -695,6 +699,7 @@ func (r *c08Run) start(name, sess, kind, method string, hdr map[string]string, b
 		r.disarm("F:" + name)
 		r.disarm("W:" + name)
 		r.disarm("O:" + name)
+		r.disarm("M:" + name)
 		x.finish()
 	}()
 	return x
@@ -737,6 +742,9 @@ func (r *c08Run) setup() error {
 	opts := &mcp.StreamableHTTPOptions{Stateless: r.sc.Cfg.Stateless, JSONResponse: r.sc.Cfg.JSON}
 	if r.sc.Cfg.Store {
 		r.store = &c08Store{inner: mcp.NewMemoryEventStore(nil), run: r, n: map[string]int{}}
+		if r.sc.Cfg.MaxBytes > 0 {
+			r.store.inner.SetMaxBytes(r.sc.Cfg.MaxBytes)
+		}
 		opts.EventStore = r.store
 	}
 	r.handler = mcp.NewStreamableHTTPHandler(func(*http.Request) *mcp.Server { return r.server }, opts)
@@ -1003,7 +1011,7 @@ func (r *c08Run) step(st []any) {
 		s.deleted = true
 		r.log.emit("del", "s", s.name)
 		r.start("d."+s.name, s.name, "del", "DELETE", r.headers(s, c08AcceptBoth), "")
-	case "gateA", "gateF", "gateW", "gateO":
+	case "gateA", "gateF", "gateW", "gateO", "gateM":
 		key := "A:" + arg(1) + "." + arg(2)
 		if op != "gateA" {
 			key = op[4:] + ":" + arg(1) // gateF g1 / gateW g1 / gateO p.s1.r1
@@ -1150,7 +1158,7 @@ func c08RunScenario(t *testing.T, l *c08Log, sc *c08Scenario) {
 	for _, s := range sc.Sessions {
 		prime[s.Name] = s.Version >= "2025-11-25" && s.Version < "2026-07-28"
 	}
-	l.emit("reset", "trace", sc.ID, "stateless", sc.Cfg.Stateless, "json", sc.Cfg.JSON, "store", sc.Cfg.Store, "prime", prime)
+	l.emit("reset", "trace", sc.ID, "stateless", sc.Cfg.Stateless, "json", sc.Cfg.JSON, "store", sc.Cfg.Store, "prime", prime, "maxbytes", sc.Cfg.MaxBytes)
 	t.Run(sc.ID, func(t *testing.T) {
 		defer func() {
 			if p := recover(); p != nil {
